@@ -326,7 +326,11 @@ def run(ctx):
                        "member names mixing ASCII and non-ASCII) x option records drawn from the product of indent size/char, spaces_around_colon/comma, "
                        "padding, five line-split options x three kinds, line_length_limit, new_line_chars, escape_all_non_ascii, escape_solidus, compact/"
                        "pretty. Judged: parse(dump v) = v, dump(parse(dump v)) = dump v bytewise, pretty = compact + white space, dump/operator<</"
-                       "encode_json agree, and the text is strict RFC 8259 denoting v per the Lean reference parser. non-trivial = has a container and a string")
+                       "encode_json agree, and the text is strict RFC 8259 denoting v per the Lean reference parser. Stream encoder-model: values inside the domain of "
+                       "Model.JsonEncode (null/bool/int64/uint64/bigint-tagged big numbers/valid UTF-8 strings of every escape class/arrays of 0-9 elements/objects, "
+                       "json and ojson, depth <= 5) x option records over every layout option of basic_json_encoder (escape_solidus too; escape_all_non_ascii off); "
+                       "the text of dump/dump_pretty and the compact text must equal Model.JsonEncode.pretty/compactS byte for byte, and are judged by the same "
+                       "oracles. non-trivial = has a container and a string")
     rng = vlib.rng_for(ctx.seed, "c01")
     streams(ctx, rng, 1 if ctx.tier == "quick" else 12)
 
